@@ -59,17 +59,26 @@ def passes(cfg, lang, data, wd, strict):
                 gap1, gap2 = len(l1[j:]) - len(rest), len(l2[j:]) - len(rest2)
                 before = l1[:j].rstrip(b" \t")
                 if rest.startswith((b"/*", b"//")):
-                    # the cause recorded as a finding: pass 1 glues the comment to the code, pass 2 inserts the one blank
+                    # causes recorded as findings, each with its own class
                     glued = j > 0 and l1[j - 1:j] not in (b" ", b"\t") and gap1 == 0 and gap2 == 1
-                    cls = "space-before-comment:zero-gap" if glued else "space-before-comment:column"
+                    prev_line = o1.split(b"\n")[line - 2] if line >= 2 else b""
+                    prev_cmt = prev_line.rstrip().endswith(b"*/") or b"//" in prev_line
+                    if not before:
+                        # a comment on a line of its own: indent_comment() may align it with the trailing comment above
+                        cls = "wholeline-comment:after-trailing" if prev_cmt and prev_line.strip()[:2] not in (b"/*", b"//") else "wholeline-comment:other"
+                    elif glued:
+                        cls = "space-before-comment:zero-gap"    # pass 1 glues the comment to the code, pass 2 inserts the one blank
+                    elif re.search(rb"(\}|\belse|#\s*endif|#\s*else)$", before):
+                        cls = "trailing-comment:after-brace"     # the 'brace comment' class of align_trailing_comments()
+                    else:
+                        cls = "trailing-comment:column"
                 elif re.match(rb"^[-+*/%&|^]?=(?!=)", rest):
                     cls = "alignment:assign"
                 elif re.match(rb"^(\w+\s*[;,=)]|\*+\w)", rest):
                     cls = "alignment:other"
-                elif before.endswith((b"*", b"&")) or rest.startswith((b"*", b"&")):
-                    cls = "spacing:star"
                 else:
-                    cls = "spacing:other"
+                    op = before[-1:] if before[-1:] and before[-1:] in b"*&^-+<>!~?:/%|" else rest[:1] if rest[:1] and rest[:1] in b"*&^-+<>!~?:/%|" else b"other"
+                    cls = "spacing:" + op.decode()
             return "fixpoint:" + cls, "pass 2 differs from pass 1 at byte %d (line %d): %r vs %r" % (k, line, o1[max(0, k - 20):k + 20], o2[max(0, k - 20):k + 20])
         # --check on the formatted text
         f = os.path.join(wd, "chk.src")
@@ -110,6 +119,23 @@ def commented(r, text):
     return "\n".join(out)
 
 
+UNIVERSE = 600
+
+
+def gen_program(i):
+    r = common.rng(0, "C05-universe-%d" % i)
+    cpp = i % 2 == 1
+    if i % 3 == 2:
+        lines = progs.program(r, nfunc=r.randint(1, 3), max_depth=4, size=20, rich=True)
+        src = progs.layout(r, lines, indent="random", tabs=True, comments=True, blank_max=2).encode("latin1")
+    else:
+        src = cprogs.program(r, nfunc=r.randint(1, 3), size=r.choice([8, 20]), cpp=cpp)
+        if i % 3 == 1:
+            src = commented(r, src)
+        src = src.encode()
+    return cpp, src
+
+
 def run(rep, build, tier, seed):
     r = common.rng(seed, "C05")
     profiles = sorted(f for f in os.listdir(PROFILES) if f.endswith(".cfg"))
@@ -121,20 +147,21 @@ def run(rep, build, tier, seed):
     if build.get("uncrustify") != "ok":
         rep.unproved("build failed", "\n".join(build["errors"])[-3000:])
         return rep.finish(ps)
-    ngen, ncor, nweak = (40, 120, 60) if tier == "quick" else (600, 100000, 1500)
+    ngen, ncor, nweak = (40, 120, 60) if tier == "quick" else (UNIVERSE, 100000, 1500)
     jobs = []
-    for i in range(ngen):
-        cpp = i % 2 == 1
-        if i % 3 == 2:
-            lines = progs.program(r, nfunc=r.randint(1, 3), max_depth=4, size=20, rich=True)
-            src = progs.layout(r, lines, indent="random", tabs=True, comments=True, blank_max=2).encode("latin1")
-        else:
-            src = cprogs.program(r, nfunc=r.randint(1, 3), size=r.choice([8, 20]), cpp=cpp)
-            if i % 3 == 1:
-                src = commented(r, src)
-            src = src.encode()
+    # generated programs: a fixed, enumerated universe gen:0 .. gen:UNIVERSE-1 (program i depends on i alone, not on VERIF_SEED),
+    # so that the pairs on which the unchanged tree is not a fixed point can be listed one by one, like those of the corpus;
+    # the quick tier formats a seed-chosen sample of it, the thorough tier all of it
+    for i in (sorted(r.sample(range(UNIVERSE), ngen)) if ngen < UNIVERSE else range(UNIVERSE)):
+        cpp, src = gen_program(i)
         for p in profiles:
-            jobs.append(("gen:%d|%s" % (i, p), os.path.join(PROFILES, p), None, "CPP" if cpp else "C", src, True, "fixpoint|%s|gen" % p[:-4]))
+            jobs.append(("gen:%d|%s" % (i, p), os.path.join(PROFILES, p), None, "CPP" if cpp else "C", src, True, "fixpoint|%s|gen:%d" % (p[:-4], i)))
+    # minimised inputs of earlier detections (seeded changes): they pass on the unchanged tree and run in every tier
+    rdir = os.path.join(common.ROOT, "corpus", "c05")
+    for fn in sorted(os.listdir(rdir)) if os.path.isdir(rdir) else []:
+        for p in profiles:
+            jobs.insert(0, ("regress:%s|%s" % (fn, p), os.path.join(PROFILES, p), None, "CPP" if fn.endswith((".cpp", ".h")) else "C",
+                            open(os.path.join(rdir, fn), "rb").read(), True, "fixpoint|%s|regress:%s" % (p[:-4], fn)))
     seen, files = set(), []
     for lang, cfg, inp, suite, num in common.corpus():
         L = lang or common.lang_of_path(inp)
@@ -177,13 +204,13 @@ def run(rep, build, tier, seed):
             if key:
                 if key == "pass2-refuses|78" or (key == "timeout" and "code_width" in (cfg_text or "")):
                     continue      # an inconsistent random draw (exit 78), or the code_width loop (C06 finding)
-                if key.startswith("fixpoint:") and keybase.endswith("|gen"):
-                    k = "fixpoint|gen|%s|%s" % (key.split(":", 1)[1], keybase.split("|")[1])          # generated program: kind of difference, profile
-                elif key.startswith("fixpoint") and strict:
-                    k = keybase
+                if key.startswith("fixpoint") and strict:
+                    k = keybase                       # (profile, corpus file) or (profile, gen:i): listed one by one
+                    if key.startswith("fixpoint:"):
+                        what = "[%s] %s" % (key.split(":", 1)[1], what)
                 else:
                     import re as _re
-                    m = _re.search(r"code_width\s*=\s*(\d+)", cfg_text or "")
+                    m = _re.search(r"(?m)^code_width\s*=\s*(\d+)", cfg_text or "")
                     if key.startswith("pass2-refuses") and m and 0 < int(m.group(1)) < 20:
                         k = "pass2-refuses|code_width-tiny"
                     else:
